@@ -319,4 +319,69 @@ theorem PlainObj.set_name {pp : PP} (P : PlainObj pp) (sec : Section) (hs : sec.
         omega
     · rw [if_neg hlt', if_neg hlt']
 
+/-- `resize_rr` refuses to grow a packet beyond 65535 bytes, touching nothing -/
+theorem resizeRR_too_large (pp : PP) (c : Cursor) (off sh : Nat) (hoff : c.offset = some off) (hsh : 0 < sh)
+    (hbig : pp.packet.length + sh > 65535) :
+    resizeRR pp c (Int.ofNat sh) = .ok { pp := pp, cur := c, result := some .packetTooLarge } := by
+  unfold resizeRR
+  have hz : (Int.ofNat sh == 0) = false := by
+    simp only [beq_eq_false_iff_ne, ne_eq]
+    intro h
+    have : (sh : Int) = 0 := h
+    omega
+  have hpos : Int.ofNat sh > 0 := by
+    have : (0 : Int) < (sh : Int) := by omega
+    exact this
+  have htn : (Int.ofNat sh).toNat = sh := by simp
+  simp only [hz, Bool.false_eq_true, if_false, hoff, hpos, if_true, htn]
+  have c1 : pp.packet.length + sh > 0xffff := hbig
+  simp only [c1, if_true, pure_eq, bind_ok, mErr]
+
+/-- **`set_raw_name` refused for size**: a name that would make the packet exceed 65535 bytes is refused;
+bytes, section starts, EDNS summary and cursor are untouched (the question cache is emptied) -/
+theorem PlainObj.set_name_too_large {pp : PP} (P : PlainObj pp) (sec : Section) (hs : sec.isRec = true) {ps1 ps2 : List Bytes} {rc : Bytes}
+    (hsplit : P.lst sec = ps1 ++ rc :: ps2) (c : Cursor) {ne : Nat} {ob oa : Bool}
+    (hr : RRAtPos pp.packet sec ⟨P.start sec + ps1.flatten.length, ne, P.start sec + ps1.flatten.length + rc.length⟩ ob oa)
+    (hoff : c.offset = some (P.start sec + ps1.flatten.length)) (hne : c.nameEnd = ne)
+    (owner' : List (List UInt8)) (hgo' : GoodLabels owner')
+    (hgrow : ne - (P.start sec + ps1.flatten.length) < labSum owner' + 1)
+    (hbig : pp.packet.length + (labSum owner' + 1) - (ne - (P.start sec + ps1.flatten.length)) > 65535) :
+    setRawName pp c (encLabels owner' ++ [0]) = .ok { pp := { pp with cached := none }, cur := c, result := some .packetTooLarge } := by
+  obtain ⟨owner, f8, rd, pre, post, ob', oa', hpk, hprel, hrc, hgo, hf8, hlt, hnon, hr', hty⟩ := P.shape_at sec hs hsplit
+  have hne' : ne = pre.length + labSum owner + 1 := by
+    rw [← hprel] at hr
+    exact nameEnds_functional hr.1 hr'.1
+  obtain ⟨h1, h2, h3⟩ := hr.pos_len
+  simp only at h1 h2 h3
+  have holdl : (encLabels owner ++ [0]).length = labSum owner + 1 := encLen_eq owner
+  have hnewl : (encLabels owner' ++ [0]).length = labSum owner' + 1 := encLen_eq owner'
+  unfold setRawName
+  rw [checkArg_ok owner' hgo']
+  have htk : (encLabels owner' ++ [0]).take (labSum owner' + 1) = encLabels owner' ++ [0] := by
+    rw [List.take_of_length_le (by rw [hnewl]; omega)]
+  have hmc : (if pp.maybeCompressed = true then uncompressAt pp c else mOk pp c) = mOk pp c := by
+    rw [P.mc]; rfl
+  simp only [htk, hmc]
+  simp only [mOk, bind_ok, Option.isSome_none, Bool.false_eq_true, if_false, hoff]
+  have hsl : slice pp.packet (P.start sec + ps1.flatten.length) c.nameEnd = .ok (encLabels owner ++ [0]) := by
+    unfold slice
+    rw [hne, hne', ← hprel]
+    have hw : (pp.packet.drop pre.length).take (labSum owner + 1) = encLabels owner ++ [0] := by
+      have e : pp.packet = pre ++ (encLabels owner ++ [0]) ++ (f8 ++ put16 rd.length ++ rd ++ post) := by rw [hpk, hrc]; simp
+      have := window_eq e
+      rw [holdl] at this; exact this
+    have hcond : pre.length ≤ pre.length + labSum owner + 1 ∧ pre.length + labSum owner + 1 ≤ pp.packet.length := by
+      constructor <;> omega
+    simp only [hcond, and_self, if_true]
+    have : pre.length + labSum owner + 1 - pre.length = labSum owner + 1 := by omega
+    rw [this, hw]
+  simp only [hsl, bind_ok, rawNameLen_enc owner hgo.1, holdl]
+  have e : Int.ofNat (labSum owner' + 1) - Int.ofNat (labSum owner + 1) = Int.ofNat (labSum owner' + 1 - (labSum owner + 1)) := by
+    simp only [Int.ofNat_eq_natCast]; omega
+  rw [e]
+  have := resizeRR_too_large { pp with cached := none } c (P.start sec + ps1.flatten.length) (labSum owner' + 1 - (labSum owner + 1)) hoff
+    (by omega) (by show pp.packet.length + _ > 65535; omega)
+  rw [this]
+  rfl
+
 end Dns
